@@ -230,6 +230,18 @@ func (r *Run) putRequest(op *Op, tgt string, body []byte) *simnet.Request {
 	case "wrong":
 		other := append([]byte("x"), body...)
 		req.Headers = append(req.Headers, [2]string{"Content-MD5", md5b64(other)})
+	case "wrong-zero": // well-formed digests that a comparison by value, by length or by prefix may take for "none"
+		req.Headers = append(req.Headers, [2]string{"Content-MD5", base64.StdEncoding.EncodeToString(make([]byte, 16))})
+	case "wrong-zero-padbits": // the same sixteen bytes with non-canonical padding bits
+		req.Headers = append(req.Headers, [2]string{"Content-MD5", "AAAAAAAAAAAAAAAAAAAAAB=="})
+	case "wrong-ones":
+		req.Headers = append(req.Headers, [2]string{"Content-MD5", base64.StdEncoding.EncodeToString(bytes.Repeat([]byte{0xff}, 16))})
+	case "wrong-ofempty": // the digest of no bytes at all, sent with a body
+		req.Headers = append(req.Headers, [2]string{"Content-MD5", md5b64(nil)})
+	case "wrong-lastbyte": // right but for the last byte
+		sum := md5.Sum(body)
+		sum[15] ^= 1
+		req.Headers = append(req.Headers, [2]string{"Content-MD5", base64.StdEncoding.EncodeToString(sum[:])})
 	case "malformed":
 		req.Headers = append(req.Headers, [2]string{"Content-MD5", "!!!not-base64!!!"})
 	case "shortlen":
